@@ -16,8 +16,9 @@ PROPERTY = 'C12'
 LEVEL = 'exploration'
 RULE = ('A case is one seeded tagged BAM (1..4 contigs, 1..6 cells, 0..120 records with SM/DS/flags/MAPQ/mp/DA drawn directly; DS within '
         'max_fragment_size of its read, a forced share exactly on bin and job boundaries, at 0 and contig_len-1; records without DS; '
-        'read2, qc-fail, duplicate, low-MAPQ, non-unique records) x bin_size x (every bins_per_job in 1..min(#bins,10) plus two large values) '
-        'x pool width 1..8 x a seeded completion order per configuration; key_tags in {None,(DA,)}; dedup on/off. '
+        'read2, qc-fail, duplicate, low-MAPQ, non-unique records; split reads = further read-1 records under the same query name) x bin_size x (every bins_per_job in 1..min(#bins,10) plus two large values) '
+        'x pool width 1..8 x a seeded completion order per configuration; key_tags in {None,(DA,)}; dedup on/off; histories in one process: the file '
+        're-written and counted again, the same file counted under another bin size / key tags / filter and then under the first configuration again. '
         'evaluations = (BAM, bins_per_job, schedule) executions. Non-trivial: >=2 jobs ran, >=1 record counted and at least one counted '
         'site lies within max_fragment_size of a job boundary while its read starts in another job; distinct = distinct (input, job split, delivery order) digests among those.')
 ASSUMPTIONS = [
@@ -29,7 +30,8 @@ COMPONENTS = {
     'real': ['bamBinCounts.generate_jobs', 'generate_commands', 'count_fragments_binned', 'read_counts', 'obtain_counts', 'pysam BAM write/index/fetch'],
     'stub': ['SimPool (bamBinCounts.multiprocessing): seeded start/complete/deliver order, pool width'],
 }
-REQUIRED_PROBES = ['file_rewritten_and_counted_again', 'several_bam_files', 'site_on_job_boundary', 'site_owned_by_other_job_than_read_start', 'multi_job', 'delivery_order_not_submission_order', 'filtered_record']
+ISOLATE = True      # bamBinCounts is called inside the worker: every case runs in a forked child (module-level state cannot travel between cases)
+REQUIRED_PROBES = ['other_configuration_in_same_process', 'records_sharing_a_query_name', 'file_rewritten_and_counted_again', 'several_bam_files', 'site_on_job_boundary', 'site_owned_by_other_job_than_read_start', 'multi_job', 'delivery_order_not_submission_order', 'filtered_record']
 
 
 def plan(tier):
@@ -93,6 +95,18 @@ def generate(seed, tier):
             'da': w.choice([None, 'a', 'b']),
             'sm': w.random() < 0.95,
         })
+    # split reads: a further read-1 record (supplementary alignment) under the SAME query name, near its primary or far from it
+    if recs and w.random() < 0.4:
+        for n in range(nrec, nrec + w.randint(1, 6)):
+            src = w.choice(recs[:nrec])
+            clen = contigs[src['ctg']][1]
+            o = dict(src)
+            shift = weighted(w, [(w.randint(1, max(1, bin_size // 2)), 3), (w.randint(bin_size, 3 * bin_size), 3), (w.randint(1, max(1, clen - 1)), 1)]) * w.choice([1, -1])
+            o['start'] = min(max(0, src['start'] + shift), clen - src['len'])
+            if src['ds'] is not None:
+                o['ds'] = min(max(0, src['ds'] + (o['start'] - src['start'])), clen - 1)
+            o.update({'n': n, 'alias': src['n'], 'supp': w.random() < 0.7})
+            recs.append(o)
     params = {
         'contigs': contigs, 'bin_size': bin_size, 'max_fragment_size': mfs,
         'min_mq': w.choice([None, 0, 20, 50, 60]), 'key_tags': w.choice([None, None, ['DA']]),
@@ -117,7 +131,14 @@ def generate(seed, tier):
             extra.append({'n': n, 'cell': w.randrange(ncell), 'ctg': ci, 'start': start, 'len': rl, 'ds': min(clen - 1, start + w.randint(0, min(mfs, rl))),
                           'rev': False, 'r1': True, 'paired': False, 'qcfail': False, 'dup': False, 'mq': 60, 'mp': None, 'da': None, 'sm': True})
         second = {'contigs': c2, 'extra': extra, 'bins_per_job': [w.choice(bpj_all), w.choice(bpj_all)]}
-    return {'params': params, 'workload': recs, 'configs': configs, 'second': second}
+    # history in one process: the same file counted again under ANOTHER configuration (bin size, key tags, filters) - as a notebook or
+    # the copy-number tools do when they try several resolutions; the answer must be a function of (file, configuration) alone
+    third = None
+    if w.random() < 0.5:
+        third = {'bin_size': weighted(w, [(bin_size * 2, 2), (max(2, bin_size // 2), 2), (w.randint(5, 3000), 2)]),
+                 'key_tags': w.choice([None, ['DA']]), 'min_mq': w.choice([None, 0, 20, 60]), 'dedup': w.random() < 0.8,
+                 'bins_per_job': w.choice([1, 2, 3, 1000]), 'then_first_again': w.random() < 0.5}
+    return {'params': params, 'workload': recs, 'configs': configs, 'second': second, 'third': third}
 
 
 def write_bam(path, contigs, recs):
@@ -127,8 +148,8 @@ def write_bam(path, contigs, recs):
     with pysam.AlignmentFile(path, 'wb', header=header) as out:
         for r in sorted(recs, key=lambda r: (r['ctg'], r['start'], r['n'])):
             s = pysam.AlignedSegment(header)
-            s.query_name = f"q{r['n']}"
-            flag = 0
+            s.query_name = f"q{r.get('alias', r['n'])}"
+            flag = 0x800 if r.get('supp') else 0
             if r['paired']:
                 flag |= 0x1 | (0x40 if r['r1'] else 0x80)
             else:
@@ -269,6 +290,34 @@ def execute(case):
                                             'got_not_want': sorted((list(map(str, k)), sorted(v.items())) for k, v in extra.items())[:4]}})
                 log.add('cfg', ci, bpj, sub.digest())
                 sigs.append((sub.digest()[:16], njobs > 1 and n_counting > 0 and cross))
+            if any('alias' in r for r in recs):
+                probe('records_sharing_a_query_name')
+            if case.get('third'):
+                th = case['third']
+                probe('other_configuration_in_same_process')
+                rounds = [dict(params, bin_size=th['bin_size'], key_tags=th['key_tags'], min_mq=th['min_mq'], dedup=th['dedup'])]
+                if th.get('then_first_again'):
+                    rounds.append(dict(params))
+                for ri, p3 in enumerate(rounds):
+                    want3 = model_counts(p3, recs)
+                    sub = EventLog()
+                    sched = Scheduler({'policy': 'seeded'}, stream(f"{case.get('run_seed')}/third/{ri}", 'schedule'), sub)
+                    bbc.multiprocessing = SimPoolFactory(sched)
+                    try:
+                        cmds = list(bbc.generate_commands(bam_arg, bin_size=p3['bin_size'], bins_per_job=th['bins_per_job'], min_mq=p3['min_mq'], max_fragment_size=p3['max_fragment_size'],
+                                                          key_tags=p3['key_tags'], dedup=p3['dedup'], kwargs={'ignore_mp': p3['ignore_mp']}))
+                        got3 = {k: dict(v) for k, v in bbc.obtain_counts(cmds, reference=None, live_update=False, threads=2).items() if v}
+                    except SimHang:
+                        raise
+                    except Exception as e:
+                        viol.append({'property': PROPERTY, 'class': 'counting-raised', 'signature': 'other-configuration/' + type(e).__name__, 'detail': {'error': repr(e)[:300]}})
+                        continue
+                    log.add('third', ri, sorted((list(map(str, k)), sorted(v.items())) for k, v in got3.items()))
+                    if got3 != want3:
+                        tg, tw_ = sum(sum(v.values()) for v in got3.values()), sum(sum(v.values()) for v in want3.values())
+                        viol.append({'property': PROPERTY, 'class': 'undercount' if tg < tw_ else ('overcount' if tg > tw_ else 'wrong-bin'), 'signature': 'other-configuration-in-same-process',
+                                     'detail': {'round': ri, 'configuration': {k: p3[k] for k in ('bin_size', 'key_tags', 'min_mq', 'dedup')}, 'bins_per_job': th['bins_per_job'], 'total_got': tg, 'total_want': tw_,
+                                                'got_not_want': sorted((list(map(str, k)), sorted(v.items())) for k, v in got3.items() if want3.get(k) != v)[:4]}})
             if case.get('second') and not params.get('split_files'):
                 sec = case['second']
                 p2 = dict(params, contigs=sec['contigs'])
